@@ -19,6 +19,8 @@ def obligations(tier):
         ch("adjust_int", "harness.C19_base", timeout=T, functions=A, bounds="2 languages (3 + 2 captions), non-negative instants, integer skew 1..4, any integer offset"),
         ch("adjust_default_skew", "harness.C19_base", timeout=T, functions=A, bounds="3 captions, skew 1, any integer offset"),
     ]
+    obs.append(ch("merge_shapes", "harness.C19_base", timeout=T, functions=M,
+                  bounds="3 captions with unconstrained instants whose node lists are [text], [text, break], [break, text] or [text, break, text] (64 shape combinations)"))
     if not q:
         obs.append(ch("merge6", "harness.C19_base", timeout=T, functions=M, bounds="6 captions, unconstrained integer (start, end)"))
     return obs
